@@ -34,6 +34,8 @@ class Builder:
         kind = rng.choice('$$><!')
         label = rng.choice(['', '', 'A', 'b1', 'L12'])
         o = rng.choice([1, 1, 1, 2, 3, 0]) if not leading else rng.choice([1, 1, 2, 0])
+        if not self.cg and rng.random() < 0.06:
+            o = 1.5                      # the aromatic bond symbol ':' in front of (or behind) a descriptor
         explicit = o != 1 or rng.random() < 0.1
         if leading:
             self.text += '[' + kind + label + ']' + (SYMS[o] if explicit else '')
@@ -89,7 +91,7 @@ class Builder:
                 r = self.open_rings.pop(rng.randrange(len(self.open_rings)))
                 sym = ''
             else:
-                r = self.ring_next if rng.random() < 0.8 else rng.choice([10, 12, 25])
+                r = self.ring_next if rng.random() < 0.8 else rng.choice([0, 10, 12, 25])
                 self.ring_next += 1
                 self.open_rings.append(r)
                 sym = rng.choice(['', '', '=', '#']) if not self.cg else rng.choice(['', '', '=', '.'])
